@@ -450,6 +450,77 @@ def job_complex_sequence(period, ncalls, bits, customs=None):
     return recs
 
 
+def job_real_sequence(period, ncalls, bits):
+    """several same-sized calls of one RealQuantizer, all results kept by the caller and judged at the end: each is
+    still the quantisation of its own input with the estimates of the last refresh (results do not share storage)"""
+    recs = []
+    tag = f"C09:real-seq:{(period, ncalls, bits)}"
+    n, nstat = 2, 2
+    ins = [sym_stream(f'x{c}', n) for c in range(ncalls)]
+
+    def run():
+        def body():
+            qz = Q.RealQuantizer(target_fwhm=32, num_bits=bits, stats_calc_period=period, stats_calc_num_samples=nstat)
+            return [qz.quantize(x) for x in ins]
+        outs, st = with_stats_stub(body)
+        return outs, st
+    with volt_patches():
+        leaves = core.explore(run, [], cap=300)
+    tstd = 32 / (2 * np.sqrt(2 * np.log(2)))
+    conds = []
+    pl = dict(fn='real_seq', period=period, ncalls=ncalls, bits=bits)
+    for li, leaf in enumerate(leaves):
+        conds.append(leaf.cond())
+        base = leaf.pc + leaf.side
+        name = f"{tag}:leaf{li}"
+        if leaf.kind == 'exc':
+            r, _ = core.check(base)
+            recs.append(q(name + ':noexc', r, detail=repr(leaf.value)))
+            if r == 'sat':
+                recs.append(cex('C09:real-seq:raise', f'quantize raised {leaf.value!r}', pl, name=name + ':noexc'))
+            continue
+        outs, st = leaf.value
+        refresh = [c for c in range(ncalls) if (period > 0 and c % period == 0) or c == 0]
+        if len(st.calls) != len(refresh):
+            recs.append(q(name + ':estimates', 'sat', detail=f"{len(st.calls)} estimates for refresh calls {refresh}"))
+            recs.append(cex('C09:real-seq:estimates', f'period {period}: statistics taken {len(st.calls)} times over {ncalls} calls', pl, name=name + ':estimates'))
+            continue
+        dis = []
+        shared = any(outs[a] is outs[b] for a in range(ncalls) for b in range(a))
+        for c in range(ncalls):
+            k = max(i for i, rc in enumerate(refresh) if rc <= c)
+            mu, sd = st.calls[k][2].t, st.calls[k][3].t
+            for j in range(n):
+                spec = clip_rne_term(z3.If(sd == 0, RV(0), (RV(tstd) / sd) * (lift(ins[c][j]) - mu) + RV(0)), bits)
+                dis.append(lift(outs[c][j]) != spec)
+        r, m = core.check(base + [z3.Or(z3.BoolVal(shared), *dis)], timeout_ms=120000)
+        recs.append(q(name, r, calls=ncalls, shared=shared))
+        if r == 'sat':
+            recs.append(cex('C09:real-seq:values', f'period {period}: a result kept from an earlier call is no longer the quantisation of its own input (results share storage: {shared})', pl, name=name))
+    r, _ = core.check([z3.Not(z3.Or(*conds))] if conds else [])
+    recs.append(q(f"{tag}:split-complete", r, leaves=len(leaves)))
+    return recs
+
+
+def replay_real_seq(p):
+    from setigen.voltage import quantization as qz
+    rng = np.random.default_rng(3)
+    bits, period = p['bits'], p['period']
+    z = qz.RealQuantizer(target_fwhm=32, num_bits=bits, stats_calc_period=period, stats_calc_num_samples=8)
+    tstd = 32 / (2 * np.sqrt(2 * np.log(2)))
+    xs = [rng.normal(c, 2 + c, 64) for c in range(4)]
+    outs, est, want = [], None, []
+    for c, x in enumerate(xs):
+        outs.append(z.quantize(x))
+        if (period > 0 and c % period == 0) or c == 0:
+            est = (np.mean(x[:8]), np.std(x[:8]))
+        want.append(ref_q(x, 0.0, tstd, bits, est[0], est[1]))
+    bad = [f"result of call {c} no longer equals the quantisation of its input ({int(np.sum(np.asarray(o).astype(int) != w))} of 64 samples)" for c, (o, w) in enumerate(zip(outs, want)) if not np.array_equal(np.asarray(o).astype(int), w)]
+    if any(np.shares_memory(outs[a], outs[b]) for a in range(4) for b in range(a)):
+        bad.append('results of different calls share memory')
+    return bool(bad), '; '.join(bad[:3]) or 'kept results stay valid'
+
+
 def job_reset_cache(kind, before, after, pc=None):
     """_reset_cache() puts a quantiser back into its initial refresh state whatever calls came before
     (period symbolic for the real quantiser, concrete pc for the complex one)"""
@@ -750,7 +821,7 @@ def replay_stats(p):
     return (not ok), f'estimate_stats -> {mu}, {sd}; expected {np.mean(x[:k])}, {np.std(x[:k])}'
 
 
-REPLAYS = {'reset': replay_reset, 'stats': replay_stats, 'real': replay_real, 'refresh': replay_refresh, 'refresh_seq': replay_refresh_seq, 'object': replay_object, 'zero': replay_zero}
+REPLAYS = {'real_seq': replay_real_seq, 'reset': replay_reset, 'stats': replay_stats, 'real': replay_real, 'refresh': replay_refresh, 'refresh_seq': replay_refresh_seq, 'object': replay_object, 'zero': replay_zero}
 
 
 def main():
@@ -780,6 +851,8 @@ def main():
         jobs.append(('job_complex_sequence', (period, 3 if not ck.thorough else 4, 2)))
         for customs in ('cnn', 'ncn', 'cnc'):
             jobs.append(('job_complex_sequence', (period, 3, 2, customs)))
+    for period in (1, 2, 0, -1):
+        jobs.append(('job_real_sequence', (period, 3, 2)))
     for before in (1, 2, 3):
         jobs.append(('job_reset_cache', ('real', before, 3)))
         for pc in (-1, 0, 1, 2, 3, 4):
